@@ -630,8 +630,8 @@ package spine
 //@   ensures[C10,C12] pending-gone: forall m model.MsgCounterType :: !PEND(r, ski, m)
 //@   ensures[C10,C12] tally-gone: forall m model.MsgCounterType :: TALLY(r, ski, m) == 0
 //@   ensures[C10,C12] others-untouched: forall s string, m model.MsgCounterType :: s != ski ==> (PEND(r, s, m) <==> old(PEND(r, s, m))) && TALLY(r, s, m) == old(TALLY(r, s, m))
-//@   ensures[C10,C12] one-section: acquisitions(r.muxWriteReceived) == 1 && acquisitions(r.muxResponseCB) == 1 && locksUnchanged()
-//@   modifies map(gomap[string]map[model.MsgCounterType]*time.Timer), map(gomap[string]map[model.MsgCounterType]int), held
+//@   ensures[C10,C12] locks-released: locksUnchanged()
+//@   modifies map(gomap[string]map[model.MsgCounterType]*time.Timer), map(gomap[string]map[model.MsgCounterType]int), held, timers
 
 // Race with the approval timeout (clauses tagged C12r, proved under the interference clause): between reading the timer and
 // re-acquiring muxResponseCB the timer of any pending write may fire (its entry disappears, the timer thread answers it).
